@@ -12,17 +12,20 @@ ROOMS = [S(lit=b'R1'.ljust(16, b'r')), S(lit=b'R2'.ljust(16, b'r')), S(lit=b'R3'
 ENTS = [S(lit='E'), S(lit='F'), S(lit='*')]
 
 SPECS = {
+    # quick: fixed key / entity patterns (building the rooms does not fork); dates and flags symbolic
     'quick': [
-        (dict(admins=1, groups=[dict(users=2, user_admins=1, rights=2)]),
-         dict(admins=1, groups=[dict(users=1, user_admins=0, rights=1)])),
+        (dict(admins=['K1', 'K1'], groups=[dict(users=['K2', 'K2', 'K3'], user_admins=['K3'], rights=['E', 'E', '*'])]),
+         dict(admins=['K2'], groups=[dict(users=['K1', 'K3'], user_admins=[], rights=['E', '*'])])),
     ],
+    # thorough: in addition symbolic keys / entities per entry (every aliasing pattern), two groups per room
     'thorough': [
-        (dict(admins=2, groups=[dict(users=2, user_admins=1, rights=3)]),
-         dict(admins=1, groups=[dict(users=2, user_admins=1, rights=2)])),
-        (dict(admins=1, groups=[dict(users=2, user_admins=0, rights=2), dict(users=1, user_admins=1, rights=2)]),
-         dict(admins=1, groups=[dict(users=1, user_admins=0, rights=1), dict(users=1, user_admins=0, rights=1)])),
-        (dict(admins=3, groups=[dict(users=3, user_admins=0, rights=1)]),
-         dict(admins=0, groups=[dict(users=1, user_admins=0, rights=3)])),
+        (dict(admins=['K1', 'K1'], groups=[dict(users=['K2', 'K2', 'K3'], user_admins=['K3'], rights=['E', 'E', '*'])]),
+         dict(admins=['K2'], groups=[dict(users=['K1', 'K3'], user_admins=[], rights=['E', '*'])])),
+        (dict(admins=['K1', 'K2', 'K1'], groups=[dict(users=['K2', 'K2', 'K2'], user_admins=['K3', 'K3'], rights=['*', 'E', '*']),
+                                                dict(users=['K3'], user_admins=['K1'], rights=['F', 'E'])]),
+         dict(admins=['K3'], groups=[dict(users=['K1', 'K1'], user_admins=['K2'], rights=['E', 'F', 'E']), dict(users=['K2'], user_admins=[], rights=['*'])])),
+        (dict(admins=2, groups=[dict(users=2, user_admins=1, rights=2)]),
+         dict(admins=1, groups=[dict(users=1, user_admins=0, rights=1)])),
     ],
 }
 
@@ -203,10 +206,12 @@ def explore_mutation(ctx, shape, tier, report):
 
 REQUIRED_WITNESSES = ['accepted', 'rejected']
 BOUNDS = {
-    'quick': 'rooms R1,R2 registered + R3 unknown; R1: 1 admin entry, 1 group (2 user, 1 user-admin, 2 right entries); R2: 1 admin, 1 group (1 user, 1 right); '
-             'keys in {K1,K2,K3}; right entities in {E,F,*}; mutation trees of depth <= 2 (root + one nested child), every combination of '
-             'room present/absent, row written/reference, old row none/roomless/in a room; dates, flags, ids, sizes unconstrained 64-bit / boolean',
-    'thorough': 'as quick with 3 room configurations (up to 3 entries per list, 2 groups per room), depth <= 3, 0-1 reference deletions per row',
+    'quick': 'rooms R1,R2 registered + R3 unknown; R1: admin history [K1,K1], one group with user history [K2,K2,K3], user-admin [K3], rights [E,E,*]; '
+             'R2: admin [K2], one group with users [K1,K3], rights [E,*]; caller/authors symbolic in {K1,K2,K3}, entity any string; one mutation-tree node '
+             '(every combination of room present/absent, row written/reference, old row none/roomless/in a room, 0-2 nested mutations, by induction any depth); '
+             'deletion queries of <= 2 rows; every date 64-bit symbolic, every flag symbolic, ids and sizes symbolic',
+    'thorough': 'as quick plus a second fixed configuration (3-entry histories, 2 groups per room) and a configuration whose entry keys / entities are '
+                'symbolic (every aliasing pattern of 2-entry lists); 0-1 reference deletions per row; deletion queries of <= 3 rows',
 }
 ASSUMPTIONS = [
     'InsertEntity shapes obey what create_node_to_mutate builds: node.room_id = room_id, node.mdate = date, old row id = id, '
